@@ -8,20 +8,25 @@ EXTENDS NodeRecovery, Json
 
 Trace == ndJsonDeserialize("trace.ndjson")
 VARIABLES l,
-          seenIdx   \* an index family of the running index flush was committed (trace-level bookkeeping)
+          seenIdx   \* trace-level bookkeeping, a record: n = index families of the running index flush committed so far;
+                    \* orph = data blocks that were durable at a crash while the index entries of their series were not
+                    \* (the known finding AckedDataIndexed at work): the replayed log may index the series again under
+                    \* ANOTHER series id (which one depends on how many index families the interrupted index flush had
+                    \* committed), so such a block may stay unreachable for ever
 tvars == <<vars, l, seenIdx>>
 ASSUME TLCSet(1, 0)
 Ev(e) == l <= Len(Trace) /\ Trace[l].ev = e /\ l' = l + 1
 Line == Trace[l]
 
-TraceInit == l = 1 /\ seenIdx = 0 /\ Init
+NoIdx == [n |-> 0, orph |-> {}]
+TraceInit == l = 1 /\ seenIdx = NoIdx /\ Init
 TReset ==
   /\ Ev("Reset")
   /\ wal' = << >> /\ gAck' = -1 /\ qAck' = -1 /\ dDict' = Empty /\ dCounter' = 0 /\ dFiles' = {} /\ dSeq' = -1
   /\ up' = TRUE /\ gCons' = -1 /\ fSeq' = -1
   /\ mDict' = Empty /\ mCounter' = 0 /\ mem' = {} /\ imm' = {} /\ immSeq' = -1 /\ gen' = 0 /\ ifl' = NoIfl /\ pendAck' = FALSE
   /\ dSer' = {} /\ dIdx' = {} /\ mSer' = {} /\ mIdx' = {} /\ iSer' = {} /\ iIdx' = {} /\ idxPhase' = "idle" /\ badIdx' = {}
-  /\ seenIdx' = 0
+  /\ seenIdx' = NoIdx
 
 TAppend == Ev("Append") /\ AppendEntry(Line.name) /\ UNCHANGED seenIdx
 TReplicaStep == Ev("ReplicaStep") /\ ReplicaStep /\ UNCHANGED seenIdx
@@ -31,7 +36,7 @@ TRCommit == Ev("RCommit") /\ RCommit /\ UNCHANGED seenIdx
 TMetaFlush == Ev("MetaFlush") /\ MetaFlush /\ UNCHANGED seenIdx
 TFamilyCommit == Ev("FamilyCommit") /\ FamilyFreezeAndCommit /\ UNCHANGED seenIdx
 TFamilyAck == Ev("FamilyAck") /\ FamilyAck /\ UNCHANGED seenIdx
-TCrash == Ev("Crash") /\ Crash /\ seenIdx' = 0
+TCrash == Ev("Crash") /\ Crash /\ seenIdx' = [n |-> 0, orph |-> seenIdx.orph \cup {b \in dFiles : b.id \notin dIdx}]
 TRecover == Ev("Recover") /\ Recover /\ UNCHANGED seenIdx
 TLogRollback == Ev("LogRollback") /\ LogRollback(Line.gcons, Line.gack) /\ UNCHANGED seenIdx
 \* steps without an effect on the modelled state
@@ -52,17 +57,17 @@ TLogRecreate == Ev("LogRecreate") /\ up /\ UNCHANGED vars /\ UNCHANGED seenIdx
 \* metric inverted index, forward index, inverted index (part "index", in this order), then the series family.
 \* A new series with a tag has entries in all three; the shard index finds a series by metric AND by tag, i.e.
 \* the index part is durable with the THIRD index commit.  A family with nothing to flush commits nothing.
-TIdxPrepare == Ev("IdxPrepare") /\ IdxPrepare /\ seenIdx' = 0
+TIdxPrepare == Ev("IdxPrepare") /\ IdxPrepare /\ seenIdx' = [seenIdx EXCEPT !.n = 0]
 TIdxCommit ==
   /\ Ev("IdxCommit")
   /\ IF Line.part = "index"
-       THEN /\ idxPhase = "prepared" /\ iIdx # {} /\ seenIdx' = seenIdx + 1
-            /\ IF seenIdx + 1 = 3 THEN IdxCommitA ELSE UNCHANGED vars
+       THEN /\ idxPhase = "prepared" /\ iIdx # {} /\ seenIdx' = [seenIdx EXCEPT !.n = @ + 1]
+            /\ IF seenIdx.n + 1 = 3 THEN IdxCommitA ELSE UNCHANGED vars
        ELSE \* the series family: after the index families if there is anything to index
-            /\ seenIdx' = 0
+            /\ seenIdx' = [seenIdx EXCEPT !.n = 0]
             /\ IF idxPhase = "half" THEN IdxCommitB ELSE (idxPhase = "prepared" /\ iIdx = {} /\ IdxCommitBoth)
 TIdxDone ==
-  /\ Ev("IdxDone") /\ seenIdx' = 0
+  /\ Ev("IdxDone") /\ seenIdx' = [seenIdx EXCEPT !.n = 0]
   /\ IF idxPhase = "prepared" THEN (iSer = {} /\ iIdx = {} /\ IdxCommitBoth)
      ELSE IF idxPhase = "half" THEN (iSer = {} /\ IdxCommitB)
      ELSE UNCHANGED vars
@@ -88,7 +93,11 @@ TFinal ==
        \* ... counted only for the series that the shard index finds by metric and by tag
        /\ LET full == IF n \in DOMAIN AllDict /\ AllDict[n] \in AllIdx
                          THEN Cardinality({b \in dFiles : b.seq = s /\ b.id = AllDict[n]}) ELSE 0
+              lost == IF n \in DOMAIN AllDict
+                         THEN Cardinality({b \in dFiles \cap seenIdx.orph : b.seq = s /\ b.id = AllDict[n]}) ELSE 0
           IN \/ e[3] = full
+             \* data flushed and acknowledged before its index entries were durable, cut off by a crash (AckedDataIndexed)
+             \/ (lost > 0 /\ e[3] = full - lost)
              \* index entries made durable before their dictionary entries and cut off by a crash (IndexedResolves)
              \/ (n \in DOMAIN AllDict /\ AllDict[n] \in badIdx /\ e[3] = 0)
   /\ UNCHANGED vars
